@@ -528,7 +528,16 @@ def prop_pcfile(rec):
                                     "pkg_config(auto_fill=True, includes=[]) "
                                     "yields --cflags {!r} (exit {})".format(
                                         out.strip(), rc), case)
+            # the build directory reached through a symbolic link elsewhere
+            lnk = os.path.join(tmp, 'deep', 'er', 'bld-link')
+            os.makedirs(os.path.dirname(lnk), exist_ok=True)
+            if not os.path.lexists(lnk):
+                os.symlink(bld, lnk)
             variants = [
+                ('uninstalled-via-symlink',
+                 [os.path.join(lnk, 'pkgconfig'), depdir], False,
+                 [os.path.join(src, d) for d in case['incdirs']],
+                 os.path.join(lnk, libsub)),
                 ('uninstalled', [os.path.join(bld, 'pkgconfig'), depdir],
                  False, [os.path.join(src, d) for d in case['incdirs']],
                  os.path.join(bld, libsub)),
@@ -635,6 +644,36 @@ def prop_pcfile(rec):
                                     'consumer exited {}: {}'.format(
                                         run.returncode,
                                         run.stderr.decode()[-300:]), case)
+            # configuring the same build directory again with a shorter
+            # prefix writes the same .pc files as a fresh build directory
+            conf2 = [c for c in conf if not c.startswith('--prefix=')] + \
+                ['--prefix=/p']
+            r2 = sandbox.configure(src, bld, env, backend='make', extra=conf2)
+            bld2 = os.path.join(tmp, 'bld2')
+            r3 = sandbox.configure(src, bld2, env, backend='make',
+                                   extra=conf2)
+            if r2.rc != 0 or r3.rc != 0:
+                if r2.rc != r3.rc:
+                    raise Violation('pc/reconfigure-status', 're-configure '
+                                    'exits {} but a fresh configure {}: {}'
+                                    .format(r2.rc, r3.rc,
+                                            (r2.err or r3.err)[-400:]), case)
+            else:
+                for fn in sorted(os.listdir(os.path.join(bld2, 'pkgconfig'))):
+                    with open(os.path.join(bld2, 'pkgconfig', fn)) as f:
+                        a = f.read()
+                    try:
+                        with open(os.path.join(bld, 'pkgconfig', fn)) as f:
+                            b = f.read()
+                    except OSError:
+                        b = None
+                    if a.replace(bld2, '@B@') != (b or '').replace(bld, '@B@'):
+                        raise Violation(
+                            'pc/reconfigure-differs', '{} after configuring '
+                            'the build directory a second time (--prefix=/p) '
+                            'differs from a fresh one:\n--- fresh\n{}\n--- '
+                            're-configured\n{}'.format(fn, a[-400:],
+                                                       (b or '')[-500:]), case)
             # --exists agrees with the script's specifiers for every version
             for n, sp in allspecs.items():
                 for v in sample_points(sp)[::3]:
